@@ -70,6 +70,7 @@ loop:
 	for {
 		select {
 		case <-ticker.C:
+			flips := 0
 			for {
 				h := handlers[app.state]
 				if onIter != nil {
@@ -83,7 +84,15 @@ loop:
 					break
 				}
 				app.state = next
-				time.Sleep(time.Millisecond) // stands for the execution time of a handler; keeps a state flip-flop from freezing a virtual clock
+				// stands for the execution time of a handler; keeps a state flip-flop from freezing a virtual clock.
+				// A flip-flop that goes on (Candidate <-> Maintenance while should_leave is set and another process
+				// holds the lock spins without waiting for the tick) is slowed down to keep long simulations affordable.
+				flips++
+				if flips > 10 {
+					time.Sleep(50 * time.Millisecond)
+				} else {
+					time.Sleep(time.Millisecond)
+				}
 			}
 		case <-ctx.Done():
 			break loop
